@@ -1315,10 +1315,16 @@ func decodeExtendedGatewayFlowRecord(data *[]byte) (SFlowExtendedGatewayFlowReco
 	var communitiesLength uint32
 	var community uint32
 
+	if len(*data) < 12 {
+		return eg, errors.New("extended gateway flow record too small")
+	}
 	*data, fdf = (*data)[4:], SFlowFlowDataFormat(binary.BigEndian.Uint32((*data)[:4]))
 	eg.EnterpriseID, eg.Format = fdf.decode()
 	*data, eg.FlowDataLength = (*data)[4:], binary.BigEndian.Uint32((*data)[:4])
 	*data, extendedGatewayAddressType = (*data)[4:], SFlowIPType(binary.BigEndian.Uint32((*data)[:4]))
+	if len(*data) < extendedGatewayAddressType.Length()+16 {
+		return eg, errors.New("extended gateway flow record too small")
+	}
 	*data, eg.NextHop = (*data)[extendedGatewayAddressType.Length():], (*data)[:extendedGatewayAddressType.Length()]
 	*data, eg.AS = (*data)[4:], binary.BigEndian.Uint32((*data)[:4])
 	*data, eg.SourceAS = (*data)[4:], binary.BigEndian.Uint32((*data)[:4])
@@ -1330,6 +1336,9 @@ func decodeExtendedGatewayFlowRecord(data *[]byte) (SFlowExtendedGatewayFlowReco
 			return eg, err
 		}
 		eg.ASPath = append(eg.ASPath, asPath)
+	}
+	if len(*data) < 4 {
+		return eg, errors.New("extended gateway flow record too small for communities")
 	}
 	*data, communitiesLength = (*data)[4:], binary.BigEndian.Uint32((*data)[:4])
 	// communitiesLength is an attacker-controlled 32-bit field and each
@@ -1344,6 +1353,9 @@ func decodeExtendedGatewayFlowRecord(data *[]byte) (SFlowExtendedGatewayFlowReco
 	for j := uint32(0); j < communitiesLength; j++ {
 		*data, community = (*data)[4:], binary.BigEndian.Uint32((*data)[:4])
 		eg.Communities[j] = community
+	}
+	if len(*data) < 4 {
+		return eg, errors.New("extended gateway flow record too small for local pref")
 	}
 	*data, eg.LocalPref = (*data)[4:], binary.BigEndian.Uint32((*data)[:4])
 	return eg, nil
